@@ -1122,6 +1122,8 @@ func Monitor(prop string, c Case, sch *Schema, obs []OpObs) []Failure {
 		}
 		var subsL []*subRec
 		ctxDone := map[int]bool{}
+		// an accepted, non-check transition has ended since the context was canceled
+		ctxTxSince := map[int]bool{}
 		disposed := false
 		var curActive []int
 		var curClock []uint64
@@ -1182,9 +1184,10 @@ func Monitor(prop string, c Case, sch *Schema, obs []OpObs) []Failure {
 			var id int
 			fmt.Sscan(out, &id)
 			for _, sr := range subsL {
-				if sr.id == id {
-					return // reused channel
+				if sr.id == id && strings.Join(sr.p, ":") == req {
+					return // reused channel, same request
 				}
+				// (the same channel handed out for another request: both requests are judged on it)
 			}
 			p := strings.Split(req, ":")
 			sr := &subRec{id: id, kind: p[0], p: p, line: line}
@@ -1278,6 +1281,9 @@ func Monitor(prop string, c Case, sch *Schema, obs []OpObs) []Failure {
 					act := setOf(e.Active)
 					// conditions are judged at the end of accepted, non-check transitions
 					if e.Acc && !isCheck {
+						for k := range ctxDone {
+							ctxTxSince[k] = true
+						}
 						for _, sr := range subsL {
 							if sr.kind != "statectx" && sr.kind != "whenqueue" && cond(sr, act, e.TA, 0) {
 								sr.held = true
@@ -1347,6 +1353,12 @@ func Monitor(prop string, c Case, sch *Schema, obs []OpObs) []Failure {
 					continue
 				}
 				ctxGone := sr.ctx != 0 && ctxDone[sr.ctx]
+				if ctxGone && ctxTxSince[sr.ctx] && !closed[sr.id] && !ci.faulty {
+					switch sr.kind {
+					case "when", "whennot", "whentime", "whenticks", "whennext", "whenquery":
+						add(li, "", "context ended, a transition has run since, yet %s (channel %d) is still open", strings.Join(sr.p, ":"), sr.id)
+					}
+				}
 				if sr.held && !closed[sr.id] {
 					add(li, "", "lost wake-up: %s (channel %d) open although its condition held at the end of a transition", strings.Join(sr.p, ":"), sr.id)
 				}
